@@ -427,11 +427,17 @@ def gen_case(ctx, i):
     extra = {}
     vals = (0, 1, 2, 3, 5)
     if r < 0.34:      # inside the hypotheses of C07_equiv_partial
-        content = cg.gen_content(rng, all_vars_have_eq=True, p_ia_par=0.1, p_ia_var=0.15)
+        content = cg.gen_content(rng, all_vars_have_eq=True, p_ia_par=0.1, p_ia_var=0.15, p_param_names=0.3)
         stratum = "clean"
     elif r < 0.46:
         content = cg.gen_content(rng, all_vars_have_eq=False, p_ia_par=0.0, p_ia_var=0.15)
         stratum = "noeq"
+        rnames = {k for k, _ in content["rxns"]}
+        reads = {a for _, f in content["derived"] for a in f["args"]}
+        reads |= {a for _, v in content["vars"] + content["pars"] if "ia" in v for a in v["ia"]["args"]}
+        if rng.random() < 0.3 and not (rnames & reads):    # no reaction at all (F-C07-3 as it is now)
+            content["rxns"] = []
+            stratum = "noeq-at-all"
     elif r < 0.58:
         content = cg.gen_content(rng, all_vars_have_eq=rng.random() < 0.7, p_ia_par=0.35, p_ia_var=0.2)
         stratum = "ia"
@@ -444,7 +450,7 @@ def gen_case(ctx, i):
     elif r < 0.74:    # few variables, many reactions, mostly computed coefficients, function objects shared between
         #               components (rates, derived values, coefficients) with different argument lists
         content = cg.gen_content(rng, n_vars=(1, 2), n_pars=(2, 3), n_comps=(3, 7), p_dyn_coef=0.75,
-                                 all_vars_have_eq=True, name_fn=cg.Namer(rng, 0.6))
+                                 all_vars_have_eq=True, name_fn=cg.Namer(rng, 0.6), p_param_names=0.3)
         stratum = "shared-functions"
     elif r < 0.84:    # functions defined in modules of their own that have module-level float constants: some are read
         #               by the function, some only share a name with a parameter; then a session step: the constants
@@ -453,10 +459,18 @@ def gen_case(ctx, i):
                                  name_fn=cg.Namer(rng, 0.3))
         stratum = "module-constants"
         extra["session"] = cg.has_session(content)
-    elif r < 0.95:    # wider expression fragment (/ % ** unary minus, nested): Python text only, executed, R vs S
+    elif r < 0.92:    # wider expression fragment (/ % ** unary minus, nested): Python text only, executed, R vs S
         content = cg.gen_content(rng, all_vars_have_eq=True, rich=True, p_dyn_coef=0.3, small=(1, 2, 4), p_time=0.0,
                                  n_pars=(1, 3))
         stratum = "wider-expressions"
+        extra["oracle_only"] = True
+        vals = (1, 2, 4, 8)
+    elif r < 0.95:    # constants of the math module (math.pi, math.e) as factor / summand / divisor / modulus of a
+        #               remainder (`x % (2*math.pi)`): Python text executed (node runs the TypeScript text in the thorough
+        #               tier), R vs S to 1e-9
+        content = cg.gen_content(rng, all_vars_have_eq=True, rich="math", p_dyn_coef=0.3, small=(1, 2, 4), p_time=0.0,
+                                 n_pars=(1, 3), n_comps=(1, 4))
+        stratum = "math-constants"
         extra["oracle_only"] = True
         vals = (1, 2, 4, 8)
     else:             # functions with control flow (if/elif/else, conditional expressions, every comparison, abs/min/
@@ -481,8 +495,8 @@ def gen_case(ctx, i):
 
 def exhaustive_cases(thorough: bool):
     """Seed-independent stratum: every content of a small grammar — 1-2 variables, 0-1 parameter, 0-2 derived values
-    (a chain, in both declaration orders), 1-2 reactions with every non-empty stoichiometry pattern over the
-    variables (coefficients -1 / 2), rates and derived functions from {a0, a0+a1, a0*a1} over the first names of
+    (a chain, in both declaration orders), 0-2 reactions with every non-empty stoichiometry pattern over the
+    variables (coefficients -1 / 2; so also: a variable no reaction changes next to one that is changed), rates and derived functions from {a0, a0+a1, a0*a1} over the first names of
     the pool; optionally the parameter free."""
     import itertools
 
@@ -505,7 +519,7 @@ def exhaustive_cases(thorough: bool):
         for dconf in dconfs:
             pool = base + [k for k, _ in sorted(dconf)]
             rate_args = [pool[-1], pool[0]]
-            rconfs = []
+            rconfs = [[]]       # no reaction at all: F-C07-3 as it is now (`return ()` / `[()]`)
             for p1 in patterns:
                 r1 = ["r1", {"args": rate_args, "e": F2[1], "st": [[v, {"c": c}] for v, c in zip(vs, p1) if c]}]
                 rconfs.append([r1])
@@ -608,7 +622,9 @@ def classify(case, lang, ent, feats):
         return "F-C07-4", True
     # F-C07-5 (parameters defined by an initial assignment), F-C07-7 / F-C07-8 (Rust printer) are repaired: such
     # inputs are judged like any other
-    if feats["var_without_eq"]:
+    # F-C07-3: no reaction changes any variable -> `return ()` / `[()]`.  A variable without a reaction next to
+    # variables with one is repaired (it gets `d<x>dt = 0`) and judged like any other input
+    if feats["no_eq"]:
         return "F-C07-3", True
     return None, True
 
@@ -684,7 +700,9 @@ def judge_phase(ctx, case, R, M, extern=None, tag=""):
     ctx.judge(sub_case(case, "py"), R["after"], R["before"], None, what="model parameter values after code generation" + tag)
     # the Lean hypothesis of C07_equiv_partial, restated on the wire form
     if M is not None:
-        in_scope = not (feats["dyn_coef"] or feats["var_without_eq"]) and len(case["content"]["vars"]) > 0
+        # (a variable no reaction changes is inside the hypothesis since the repair of F-C07-12; "no equation at
+        # all" = F-C07-3 is not)
+        in_scope = not (feats["dyn_coef"] or feats["no_eq"]) and len(case["content"]["vars"]) > 0
         if M["okC"] != in_scope:
             ctx.add_drift(sub_case(case, "py"), {"in_scope": in_scope}, {"okC": M["okC"]}, "hypothesis okC of C07_equiv_partial")
         ctx.hist["okC_true" if M["okC"] else "okC_false"] = ctx.hist.get("okC_true" if M["okC"] else "okC_false", 0) + 1
@@ -928,7 +946,11 @@ CORPUS = [
     {"content": {"vars": [["x", {"v": "1"}], ["y", {"v": "1"}]], "pars": [["k", {"v": "2"}]], "derived": [],
                  "rxns": [["r", {"args": ["x", "k"], "e": ["*", ["a", 0], ["a", 1]], "st": [["x", {"c": "-1"}], ["y", {"c": "1"}]]}]]},
      "free": ["k"], "states": [["0", ["3", "1"], ["3"]]], "stratum": "corpus"},
-    # variable without a reaction (F-C07-3)
+    # no reaction changes any variable (F-C07-3 as it is now): `return ()` / `[()]`
+    {"content": {"vars": [["x", {"v": "1"}], ["z", {"v": "1"}]], "pars": [["k", {"v": "2"}]],
+                 "derived": [["d", {"args": ["x", "k"], "e": ["*", ["a", 0], ["a", 1]]}]], "rxns": []},
+     "free": [], "states": [["0", ["3", "1"], []]], "stratum": "corpus"},
+    # variable without a reaction next to one with a reaction (former part of F-C07-3, repaired: dzdt = 0)
     {"content": {"vars": [["x", {"v": "1"}], ["z", {"v": "1"}]], "pars": [["k", {"v": "2"}]], "derived": [],
                  "rxns": [["r", {"args": ["x", "k"], "e": ["*", ["a", 0], ["a", 1]], "st": [["x", {"c": "-1"}]]}]]},
      "free": [], "states": [["0", ["3", "1"], []]], "stratum": "corpus"},
